@@ -1529,6 +1529,10 @@ class AllConnGraph(nx.DiGraph):
                 if indices is None:
                     model._inputs._abs_set_val(node[1], tval)
                 else:
+                    if np.ndim(tval) > 0 and np.size(tval) == 1:
+                        # a single value (convert_set returns it with shape (1,)) can go to one
+                        # element or be broadcast over several
+                        tval = np.reshape(tval, ())
                     model._inputs._abs_set_val(node[1], tval, idx=indices())
         else:
             srcval = src_meta.val
@@ -3724,7 +3728,7 @@ class AllConnGraph(nx.DiGraph):
                 for idx in indices_list:
                     chain.append(idx.indexed_val(chain[-1]))
 
-                if np.shape(val) != () and np.squeeze(val).shape != np.squeeze(chain[-1]).shape:
+                if np.size(val) != 1 and np.squeeze(val).shape != np.squeeze(chain[-1]).shape:
                     msg = (f"Value shape {np.squeeze(val).shape} does not match shape "
                            f"{np.squeeze(chain[-1]).shape} of the destination")
             else:
